@@ -61,6 +61,8 @@ func runC01(c *Ctx) {
 	rulePrepareMethodSet(c, p, "C01.prepare-methodset")
 	ruleLimbPairs(c, p, "C01.limbs")
 	ruleResetComplete(c, p, "C01.reset-clears")
+	ruleResetKeepsParameters(c, p, "C01.reset-keeps")
+	ruleArrayCtorElement(c, p, "C01.ctor-elem")
 	ruleMapInfer(c, p, "C01.mapinfer")
 	ruleStringIdioms(c, p, "C01.idioms")
 	ruleResetBefore(c, p, "C01.reset")
